@@ -449,6 +449,9 @@ pub fn zoo() -> Vec<Entry> {
 		Vec<Compact<u32>>, Vec<[u8; 3]>, Vec<Option<Box<[String; 2]>>>, Vec<OptionBool>, Vec<NonZeroU32>,
 		Vec<Result<u8, String>>, Vec<BTreeMap<u8, Vec<u16>>>);
 	add!(v; codec: Vec<()>, Vec<PhantomData<u8>>, Vec<[u8; 0]>, Vec<((), ())>);
+	// large in-memory elements (a count-driven reservation scales with the element size)
+	add!(v; full: Vec<[u64; 32]>, Vec<[u8; 1024]>, Vec<[u64; 512]>, VecDeque<(u64, u64)>, Vec<(u128, u128, u128)>, Vec<Vec<[u8; 1024]>>,
+		BinaryHeap<[u32; 16]>, Vec<Option<[u64; 16]>>);
 	add!(v; full: VecDeque<u8>, VecDeque<u32>, VecDeque<i64>, VecDeque<String>, VecDeque<(u8, u32)>, VecDeque<Option<u16>>,
 		LinkedList<u8>, LinkedList<u32>, LinkedList<String>, LinkedList<Vec<u8>>,
 		BinaryHeap<u8>, BinaryHeap<u32>, BinaryHeap<i16>, BinaryHeap<(u8, u16)>,
